@@ -84,8 +84,10 @@ def build_native(ov):
     t = overlay._strip_section(t, r"^\[lints\]")
     open(p, "w").write(t)
     shutil.copy(os.path.join(REPO, "Cargo.lock"), os.path.join(nat, "mla", "Cargo.lock"))
+    rdir = os.path.join(nat, "replay")
+    shutil.copytree(os.path.join(VERIF, "replay"), rdir)
     for rel, name in NATIVE_APPEND.items():
-        rf = os.path.join(VERIF, "replay", name + ".rs")
+        rf = os.path.join(rdir, name + ".rs")
         if os.path.isfile(rf):
             with open(os.path.join(nat, rel), "a") as f:
                 f.write(f'\n#[cfg(test)]\n#[path = "{rf}"]\nmod verif_replay_{name};\n')
